@@ -334,6 +334,7 @@ def run(ctx):
 
 
 MUTANTS = [
+    {'name': 'revert: debug assertion on the two length fields of an uncompressed item', 'edits': [('src/journal/entry.rs', "                        if value_len != on_disk_value_len {\n                            log::error!(\"On-disk size does not match expected value size\");\n                            return Err(crate::Error::Decompress(CompressionType::None));\n                        }\n", "                        debug_assert_eq!(value_len, on_disk_value_len);\n")]},
     {'name': 'item_count = batch_size - 1', 'edits': [('src/journal/writer.rs', "let item_count = batch_size as u32;", "let item_count = (batch_size as u32).saturating_sub(1).max(1);")]},
     {'name': 'hash updated before the buffer is filled', 'edits': [('src/journal/writer.rs', """            self.file.write_all(&self.buf)?;
 
